@@ -84,6 +84,57 @@ def _array_get(arrs, idxs):
     return [a[i] for a in arrs for i in idxs if 0 <= i < len(a)]
 
 
+def _opt_insts(xs):
+    return [[x] for x in xs] if xs else [[]]
+
+
+def _opt_eq(x, y):
+    # std::?= (l: OPTIONAL anytype, r: OPTIONAL anytype): one call per combination of elements,
+    # an empty operand is passed once as the empty set; {} ?= {} is true, {} ?= v is false
+    return [(not a and not b) if (not a or not b) else a[0] == b[0] for a in _opt_insts(x) for b in _opt_insts(y)]
+
+
+def _opt_ne(x, y):
+    return [(bool(a) != bool(b)) if (not a or not b) else a[0] != b[0] for a in _opt_insts(x) for b in _opt_insts(y)]
+
+
+# inheritance: toy_eval_model matches `__type__` literally; the harness makes the object lookup and
+# the type intersection inheritance-aware with the descendants taken from the REAL schema
+_DESC: dict = {}
+
+
+def _eval_objref(name, ctx):
+    if name == 'FreeObject':
+        return [M.mk_free_object()]
+    ok = {name} | _DESC.get(name, set())
+    return [M.Obj(obj["id"]) for obj in ctx.db.data.values() if obj["__type__"] in ok]
+
+
+def _eval_intersect(base, ptr, ctx):
+    typ = ctx.db.data[base.id]["__type__"]
+    return [base] if typ == ptr.typ or typ in _DESC.get(ptr.typ, set()) else []
+
+
+M.eval_objref = _eval_objref
+M.eval_intersect = _eval_intersect
+
+
+def set_hierarchy(schema):
+    from edb.schema import objtypes as s_objtypes
+    _DESC.clear()
+    try:
+        for t in schema.get_objects(type=s_objtypes.ObjectType):
+            nm = t.get_name(schema)
+            if getattr(nm, 'module', None) != 'default':
+                continue
+            ds = {d.get_name(schema).name for d in t.descendants(schema)
+                  if getattr(d.get_name(schema), 'module', None) == 'default'}
+            if ds:
+                _DESC[nm.name] = ds
+    except Exception:   # noqa
+        _DESC.clear()
+
+
 M.BASIS.update({'assert_single': [M.SET_OF], 'assert_exists': [M.SET_OF], 'assert_distinct': [M.SET_OF]})
 M.BASIS_IMPLS.update({
     ('func', 'assert_single'): _assert_single,
@@ -92,6 +143,8 @@ M.BASIS_IMPLS.update({
     ('func', 'min'): lambda x: [min(x)] if x else [],
     ('func', 'max'): lambda x: [max(x)] if x else [],
     ('func', 'array_get'): _array_get,
+    ('binop', '?='): _opt_eq,
+    ('binop', '?!='): _opt_ne,
 })
 
 # ------------------------------------------------------------------ schema cache
@@ -302,6 +355,7 @@ def run_core(line):
         return {'err': f'E:render:{e}', 'r': [], 'mon': [], 'q': None}
     sdl = G.render_sdl(schema_sx)
     schema = load_schema(sdl)
+    _DESC.clear()
     comp = compile_q(schema, text)
     out = dict(comp)
     out['q'] = text
@@ -369,9 +423,11 @@ def run_text(line):
     out['q'] = case['q']
     out['r'] = []
     out['mon'] = []
+    set_hierarchy(schema)
     if comp['err'] is None:
         try:
-            qtree = M.parse(case['q'])
+            # q_eval: the text the reference evaluator runs (parameters replaced by their values)
+            qtree = M.parse(case.get('q_eval') or case['q'])
         except Exception as e:   # noqa
             return out
         for i, dbj in enumerate(case.get('dbs', [])):
